@@ -20,7 +20,7 @@ produce (`LegalChunkTable`: any key-sorted permutation of the section-order rows
 
 The table search itself (`search_on_sorted_u64s`) is `XetProps/C09Search.lean`; `getFile` uses its
 specification `searchSpec`, and `C09_lookup_sorted` supplies the sortedness hypothesis that file needs.
-The streaming and minimal readers have no model functions in `XetModel/ShardFormat.lean`; their agreement with
+The streaming and minimal readers are XetModel/ShardStream.lean / XetProps/C09Readers.lean; (formerly:) no model functions in `XetModel/ShardFormat.lean`; their agreement with
 the seekable reader is decided by the correspondence suite only and is not a theorem here.
 -/
 import XetProofs.ShardFormat
